@@ -623,6 +623,72 @@ def no_fragment_cycles_entry(rng, sv, doc):
     return d, "entry-%d-into-cycle-of-%d-%s" % (e, c, order)
 
 
+def no_fragment_cycles_below_field(rng, sv, doc):
+    """hunt2 C05/1: a fragment cycle that passes through the SUB-SELECTION of a field (`F on T { f { g { ...F } ...F } }`,
+    self-spread or two mutually spreading fragments, depth 1-3, spread at every level / first / innermost only).
+    Needs a type T with a field whose type overlaps T (then the same step can be repeated)."""
+    d = copy.deepcopy(doc)
+    p = Pos(sv, d)
+    places = [(sels, par) for sels, par, df, _ in p.lists if df["k"] == "op" and df["op"] != "subscription" or df["k"] == "frag"]
+    rng.shuffle(places)
+    for sels, par in places:
+        steps = []
+        for T in sv.composites():
+            if not sv.overlap(T, par):
+                continue
+            for f in sv.fields(T):
+                U = gs.ty_base(f["type"])
+                if sv.is_composite(U) and sv.overlap(U, T):
+                    # further steps: fields of U whose type overlaps T again (U itself when U == T)
+                    nxt = [g for g in sv.fields(U) if sv.is_composite(gs.ty_base(g["type"])) and
+                           sv.overlap(gs.ty_base(g["type"]), T) and gs.ty_base(g["type"]) == U]
+                    steps.append((T, f, U, nxt))
+        if not steps:
+            continue
+        T, f, U, nxt = rng.choice(steps)
+
+        def fld(fd):
+            args = []
+            for a in fd.get("args") or []:
+                if a["type"][0] == "nonNull" and a.get("default") is None:
+                    lit = _good_literal(sv, a["type"])
+                    if lit is None:
+                        return None
+                    args.append({"name": a["name"], "value": lit})
+            return mk_field(fd, args=args)
+        depth = rng.choice([1, 2, 3]) if nxt else 1
+        shape = rng.choice(["every-level", "spread-first", "innermost"])
+        mutual = rng.random() < 0.4
+        uid = rng.randint(0, 99)
+        names = ["Zb%d" % uid, "Zq%d" % uid] if mutual else ["Zb%d" % uid]
+
+        def body(target):
+            chain = [f] + [rng.choice(nxt) for _ in range(depth - 1)]
+            inner = None
+            for lvl, fd in enumerate(reversed(chain)):       # innermost first
+                node = fld(fd)
+                if node is None:
+                    return None
+                sp = {"k": "spread", "name": target, "dirs": []}
+                own = [] if inner is None else [inner]
+                if inner is None or shape != "innermost":
+                    own = ([sp] + own) if shape == "spread-first" else (own + [sp])
+                node["sels"] = own
+                inner = node
+            return [inner]
+        new = []
+        for i, n in enumerate(names):
+            b = body(names[(i + 1) % len(names)])
+            if b is None:
+                return None
+            new.append({"k": "frag", "name": n, "on": T, "dirs": [], "sels": b})
+        sels.append({"k": "spread", "name": names[0], "dirs": []})
+        for x in new:
+            d["defs"].insert(rng.randint(0, len(d["defs"])), x)
+        return d, "cycle-below-field:%s:%s:depth%d" % ("mutual" if mutual else "self", shape, depth)
+    return None
+
+
 def possible_fragment_spreads(rng, sv, doc):
     d = copy.deepcopy(doc)
     p = Pos(sv, d)
@@ -1382,6 +1448,7 @@ INJECTORS = [
     ("known_fragment_names", "5.5.2.1", ["KnownFragmentNamesChecker"], known_fragment_names),
     ("no_fragment_cycles", "5.5.2.2", ["NoFragmentCyclesChecker"], no_fragment_cycles),
     ("no_fragment_cycles", "5.5.2.2", ["NoFragmentCyclesChecker"], no_fragment_cycles_entry),
+    ("no_fragment_cycles", "5.5.2.2", ["NoFragmentCyclesChecker"], no_fragment_cycles_below_field),
     ("possible_fragment_spreads", "5.5.2.3", ["PossibleFragmentSpreadsChecker"], possible_fragment_spreads),
     ("values_of_correct_type", "5.6.1", ["ValuesOfCorrectTypeChecker"], values_of_correct_type),
     ("input_object_field_names", "5.6.2", ["ValuesOfCorrectTypeChecker"], input_object_field_names),
